@@ -431,5 +431,6 @@ pub fn gen_client(
         end: *rng.pick(&[EndKind::Stay, EndKind::Close, EndKind::Reset, EndKind::Stay]),
         crash_after_op: None,
         auth_token: None,
+        tcp: false,
     }
 }
